@@ -25,7 +25,6 @@ U_ABS, U_PHASE, U_SQRT, U_ARCCOS, B_POW = 0, 4, 5, 6, 0
 ALG = {"add": "Add", "sub": "Sub", "mul": "Mul", "div": "Div", "pow": "Pow"}
 LABELS = ["a", "b", "c", "d", "p", "q", "r", "s", "u", "w", "ab", "abc", "p_1", "Q"]
 KNOWN_COMM = "C03-commutative-distinct-labels"
-KNOWN_LSHIFT = "C03-lshift-percell-array"
 
 
 # ------------------------------------------------------------------ exact complex rationals
@@ -1554,10 +1553,6 @@ def run_case(c):
         ro = None
         if expect == "accept" and ref is not None:
             rec["oracle"].append("valid-expression-rejected")
-            if (e[0] == "bin" and e[1] == "stack" and any(is_const(x) and x[0] == "arr" and x[1] != n[0]
-                                                          for x in (e[3], e[4]))):
-                # known: << wraps an array operand with nvdim=len(other), i.e. n[0] for a per-cell array
-                rec["tags"].append(KNOWN_LSHIFT)
     # --- Gallina record
     coq = None
     if ref is not None or st != "ok":
